@@ -5,6 +5,7 @@ import (
 	"fmt"
 	"go/types"
 	"os"
+	"path/filepath"
 	"runtime/debug"
 	"sort"
 	"strings"
@@ -18,6 +19,10 @@ func main() {
 		os.Exit(2)
 	}
 	if d := os.Getenv("GVC_REPO"); d != "" {
+		if filepath.Clean(d) != filepath.Clean(repoDir) && os.Getenv("GVC_EVIDENCE_DIR") == "" {
+			// a run against a scratch copy never rewrites the evidence of the real tree
+			os.Setenv("GVC_EVIDENCE_DIR", filepath.Join(filepath.Dir(filepath.Clean(d)), "gvc-scratch-evidence"))
+		}
 		repoDir = d
 	}
 	if d := os.Getenv("GVC_VERIF"); d != "" {
@@ -28,6 +33,8 @@ func main() {
 		devCmd(os.Args[2:])
 	case "check":
 		checkCmd(os.Args[2:])
+	case "replay":
+		replayCmd(os.Args[2:])
 	case "sugar":
 		s, err := rewriteSugar(strings.Join(os.Args[2:], " "))
 		fmt.Println(s, err)
